@@ -312,16 +312,20 @@ def run_project(item):
         res["broken"] = "fault-free session ended with an internal error: " + good["out"][-600:]
         return res
     points = [(n, k) for n in range(len(tr_ref) + 1) for k in ("crash", "fail")]
+    # a persistent failure of write() (full disk): the first failing write and every later one
+    points += [(n, "failall") for n in range(len(tr_ref)) if tr_ref[n][0] == "write"]
     if p["setup"] == "fmtcmd":
         # a format-command that exits with status 0 but prints something else than the formatted code, at one call only
         points += [(n, "garble-" + how) for n in range(len(tr_ref)) if tr_ref[n][0] == "format" for how in ("syntax", "empty", "other")]
     if budget < len(points):
         # always the boundaries around writes and persists, the rest sampled
         key = [(n, k) for (n, k) in points if n < len(tr_ref) and (tr_ref[n][0] in ("write", "open_w", "mode", "replace", "persist") or (p["setup"] == "fmtcmd" and tr_ref[n][0] == "format" and k != "crash"))]
-        rest = [x for x in points if x not in key]
+        always = [x for x in key if x[1] == "failall"][:2]          # a persistent write failure is always among the sampled faults
+        key = [x for x in key if x not in always]
+        rest = [x for x in points if x not in key and x not in always]
         rng.shuffle(key)
         rng.shuffle(rest)
-        points = (key[: budget // 2] + rest)[:budget]
+        points = (always + key[: budget // 2] + rest)[:budget]
     for (n, k) in points:
         r = session(p, at=n, kind=k)
         if r.get("infra"):
